@@ -26,9 +26,9 @@ private theorem coerceInt_sound {reg : Reg} {n : String} (hn : reg.get? n = some
   | int k =>
     simp only [coerceInt] at h
     obtain ⟨rfl, hr⟩ := rangeChecked_ok h; exact ⟨.int hn hr, rfl⟩
-  | float t i =>
+  | float t i c =>
     cases i with
-    | none => simp [coerceInt] at h
+    | none => cases c <;> simp [coerceInt] at h
     | some k =>
       simp only [coerceInt] at h
       obtain ⟨rfl, hr⟩ := rangeChecked_ok h; exact ⟨.int hn hr, rfl⟩
@@ -48,15 +48,15 @@ private theorem coerceFloat_sound {reg : Reg} {n : String} (hn : reg.get? n = so
   | null => simp [coerceFloat] at h
   | list l => simp [coerceFloat] at h
   | obj kvs => simp [coerceFloat] at h
-  | bool b => simp only [coerceFloat] at h; cases h; exact ⟨.float hn, rfl⟩
-  | int k => simp only [coerceFloat] at h; cases h; exact ⟨.float hn, rfl⟩
-  | float t i => simp only [coerceFloat] at h; cases h; exact ⟨.float hn, rfl⟩
+  | bool b => simp only [coerceFloat] at h; obtain ⟨rfl, _⟩ := floatChecked_ok h; exact ⟨.float hn, rfl⟩
+  | int k => simp only [coerceFloat] at h; obtain ⟨rfl, _⟩ := floatChecked_ok h; exact ⟨.float hn, rfl⟩
+  | float t i c => simp only [coerceFloat] at h; obtain ⟨rfl, _⟩ := floatChecked_ok h; exact ⟨.float hn, rfl⟩
   | str s a b =>
     simp only [coerceFloat] at h
     split at h
     · cases h
     · split at h
-      · cases h; exact ⟨.float hn, rfl⟩
+      · obtain ⟨rfl, _⟩ := floatChecked_ok h; exact ⟨.float hn, rfl⟩
       · cases h
 
 private theorem pvOfJson_notNone {v : JV} (h : v.isNull = false) : (pvOfJson v).isNone = false := by
@@ -87,7 +87,7 @@ private theorem coerceCore_sound {reg : Reg} (hreg : RegOK reg) {rec : Ty → JV
         · rename_i r hr
           cases h
           refine ⟨.list ?_, fun _ => rfl⟩
-          exact mapE_ok_forall (P := fun y => Conforms reg t' y) hr (fun x _ y hy => hrec t' x y (wf_list hwf) hy)
+          exact mapE_ok_forall (P := fun y => Conforms reg t' y) ((mapEC_ok_iff _ _ _).1 hr) (fun x _ y hy => hrec t' x y (wf_list hwf) hy)
       · split at h
         · cases h
         · rename_i x hx
@@ -130,7 +130,7 @@ private theorem coerceCore_sound {reg : Reg} (hreg : RegOK reg) {rec : Ty → JV
               refine ⟨.input hk ?_, fun _ => rfl⟩
               exact fieldLoop_sound
                 (fun f hf v pv _ hpv => hrec f.type v pv (hreg.fieldWf n fs hk f hf) hpv)
-                (fun f hf d hd => hreg.defaultsConform n fs hk f hf d hd) hr
+                (fun f hf d hd => hreg.defaultsConform n fs hk f hf d hd) ((fieldLoopC_ok_iff _ _ _ _).1 hr)
             · cases h
         · cases h
       · cases h
@@ -174,8 +174,10 @@ private theorem parseLiteral_sound {reg : Reg} {n : String} {k : NamedT} (hk : r
     cases l <;> simp only [parseLiteral] at h <;> split at h <;> try cases h
     obtain ⟨rfl, hr⟩ := rangeChecked_ok h; exact ⟨.int hk hr, rfl⟩
   | float =>
-    cases l <;> simp only [parseLiteral] at h <;> split at h <;> try cases h
-    all_goals exact ⟨.float hk, rfl⟩
+    cases l <;> simp only [parseLiteral] at h <;> split at h
+    all_goals first
+      | (obtain ⟨rfl, _⟩ := floatChecked_ok h; exact ⟨.float hk, rfl⟩)
+      | cases h
   | string =>
     cases l <;> simp only [parseLiteral] at h <;> split at h <;> try cases h
     all_goals exact ⟨.string hk, rfl⟩
